@@ -5,4 +5,5 @@
 //@include units/vf_stream.rs
 //@include units/arrival_basic.rs
 //@include units/arrival_steps.rs
+//@include units/arrival_steps_agg.rs
 fn main() {}
